@@ -60,6 +60,9 @@ EXPLANATION += ' R6: the LineIterator class is interpreted on a model file of fo
 # --- metadata added after the round-4 refactoring twins
 EXPLANATION += ' R4: a step that is handed on unchanged through the parameters of two functions is positive if it is at every outer call site.'
 # --- end metadata round-4 twins
+# --- metadata added after the round-5 refactoring twins
+EXPLANATION += ' R9: an inner loop over a literal sequence (also through enumerate / zip, or range with constant bounds) certainly runs; for arrays that start from defined values the "iteration without a store" clause looks at continue / branches of the record loop itself, not at an inner loop over the words of the record. R4: the premise of the frozen CP2K exception may be satisfied through a helper that takes coeffs.shape[1] unconditionally.'
+# --- end metadata round-5 twins
 
 
 def _derives_from(prog, cls, base):
